@@ -182,6 +182,11 @@ func (s *Store) createODSQ4File(
 
 	err := file.CreateODSQ4(pathODS, pathQ4, roots, square)
 	if err != nil && !errors.Is(err, os.ErrExist) {
+		// a height that is already linked was stored completely by an earlier put: this call
+		// wrote nothing into it, so there is nothing partial to remove
+		if s.heightLinked(height) {
+			return false, fmt.Errorf("creating ODSQ4 file: %w", err)
+		}
 		// ensure we don't have partial writes if any operation fails
 		removeErr := s.removeODSQ4(height, roots.Hash())
 		return false, errors.Join(
@@ -246,6 +251,11 @@ func (s *Store) createODSFile(
 	pathODS := s.hashToPath(roots.Hash(), odsFileExt)
 	err := file.CreateODS(pathODS, roots, square)
 	if err != nil && !errors.Is(err, os.ErrExist) {
+		// a height that is already linked was stored completely by an earlier put: this call
+		// wrote nothing into it, so there is nothing partial to remove
+		if s.heightLinked(height) {
+			return false, fmt.Errorf("creating ODS file: %w", err)
+		}
 		// ensure we don't have partial writes if any operation fails
 		removeErr := s.removeODS(height, roots.Hash())
 		return false, errors.Join(
@@ -301,6 +311,13 @@ func (s *Store) validateAndRecoverODS(
 		return fmt.Errorf("recreating ODS file: %w", err)
 	}
 	return nil
+}
+
+// heightLinked reports whether the height link exists on disk, i.e. whether an earlier put of
+// this height has completed (the link is the last thing a put creates).
+func (s *Store) heightLinked(height uint64) bool {
+	linked, err := exists(s.heightToPath(height, odsFileExt))
+	return err == nil && linked
 }
 
 func (s *Store) linkHeight(datahash share.DataHash, height uint64) error {
